@@ -162,6 +162,7 @@ class Unit:
                 else:
                     out_lines.append(line)
 
+        self.realign(ix, sc)
         process(tpl)
         missing = (set(fn_specs) | set(item_specs) | set(closure_specs)) - used
         if missing:
@@ -202,6 +203,71 @@ class Unit:
                 extra = w.clauses[cid]["text"].count("\n")
                 self.clause_lines[cid] = (n, n + extra)
         return self
+
+    def realign(self, ix, sc):
+        """Ordinal re-alignment: closure / loop annotations addressed by ordinal are re-pointed when closures or loops were
+        inserted or removed elsewhere in the function. The pinned record holds, per function, the normalised text of every closure
+        body and loop header on the recorded tree; the current lists are aligned with them (difflib, longest matching blocks;
+        replaced blocks of equal length are matched in order) and the sidecar's ordinals translated. A closure that was itself
+        edited keeps its position between its unchanged neighbours. Placeholder and fresh-parameter names keep the recorded ordinal
+        (KVX_CLOSURE_k, kvx_pk_j) so patches and clauses written against them stay valid."""
+        import difflib
+        self.fingerprints = {}
+        pinned_path = os.path.join(VERIF, "contracts", self.prop, "pinned", self.name + ".json")
+        old_all = {}
+        if os.path.exists(pinned_path) and not os.environ.get("VERIF_NO_REALIGN"):
+            try:
+                with open(pinned_path) as fh:
+                    old_all = json.load(fh).get("anchors", {}) or {}
+            except Exception:
+                old_all = {}
+        norm = lambda t: "".join(t.split())
+        def align(old, new):
+            mp = {}
+            for tag, i1, i2, j1, j2 in difflib.SequenceMatcher(a=old, b=new, autojunk=False).get_opcodes():
+                if tag == "equal":
+                    for d in range(i2 - i1):
+                        mp[i1 + d] = j1 + d
+                elif tag == "replace":
+                    for d in range(min(i2 - i1, j2 - j1)):
+                        mp[i1 + d] = j1 + d
+            return mp
+        groups = {}
+        for kind in ("fn", "closure_fn"):
+            for spec in sc.get(kind, []):
+                try:
+                    it = ix.find(spec["path"], kind="fn", trait=spec.get("trait"), file_hint=spec.get("file_hint"), nth=spec.get("nth"), impl_self=spec.get("impl_self"))
+                except Exception:
+                    continue
+                key = spec["path"] + "|" + str(spec.get("trait")) + "|" + str(spec.get("impl_self")) + "|" + str(spec.get("nth"))
+                src = ix.source(it["file"])
+                cl = [norm(src[c["body"][0]:c["body"][1]].decode("utf-8")) for c in it.get("closures", [])]
+                lp = [norm(src[l["kw"]:l["body_open"]].decode("utf-8")) for l in it.get("loops", [])]
+                self.fingerprints[key] = {"closures": cl, "loops": lp}
+                groups.setdefault(key, []).append((kind, spec, it))
+        for key, members in groups.items():
+            old = old_all.get(key)
+            if not old:
+                continue
+            cur = self.fingerprints[key]
+            cmap = align(old.get("closures", []), cur["closures"]) if old.get("closures", []) != cur["closures"] else None
+            lmap = align(old.get("loops", []), cur["loops"]) if old.get("loops", []) != cur["loops"] else None
+            for kind, spec, it in members:
+                if cmap is not None:
+                    if kind == "closure_fn" and "ordinal" in spec and spec["ordinal"] in cmap:
+                        spec["ordinal"] = cmap[spec["ordinal"]]
+                    for c in spec.get("closure", []):
+                        if "ordinal" in c and c["ordinal"] in cmap and cmap[c["ordinal"]] != c["ordinal"]:
+                            k0, k1 = c["ordinal"], cmap[c["ordinal"]]
+                            c["ordinal"] = k1
+                            if c.get("cut") and "cut_name" not in c:
+                                c["cut_name"] = str(k0)
+                            if "pnames" not in c and k1 < len(it.get("closures", [])):
+                                c["pnames"] = [f"kvx_p{k0}_{j}" for j in range(len(it["closures"][k1]["inputs"]))]
+                if lmap is not None:
+                    for l in spec.get("loop", []):
+                        if "ordinal" in l and l["ordinal"] in lmap:
+                            l["ordinal"] = lmap[l["ordinal"]]
 
     def static_list(self, ix, arg):
         parts = arg.split()
